@@ -213,6 +213,38 @@ func (r *Rand) Size() int {
 	}
 }
 
+// ObsStride draws how often a history's extra observations are made: after
+// every operation (most runs), after every k-th, or only at the end. Observing
+// is itself a call into the code under test and may flush or repair state
+// (lazy buffers, pending recomputations) that a real caller would leave alone.
+func (r *Rand) ObsStride() int {
+	switch n := r.Intn(100); {
+	case n < 60:
+		return 1
+	case n < 90:
+		return r.Range(2, 12)
+	default:
+		return 1 << 30 // only at the end
+	}
+}
+
+// Observe reports whether operation i of n is followed by observations under stride.
+func Observe(stride, i, n int) bool {
+	if stride <= 1 || i == n-1 {
+		return true
+	}
+	return (i+1)%stride == 0
+}
+
+func (p *Plan) Stride() int {
+	n := 0
+	fmt.Sscan(p.Cfg("obs", "1"), &n)
+	if n < 1 {
+		n = 1
+	}
+	return n
+}
+
 // CoarseMode (flag -sim.coarse): pre-empt at operation boundaries only.
 var CoarseMode = false
 
